@@ -17,6 +17,8 @@ def main():
         mod = importlib.import_module("props." + os.path.basename(f)[:-3])
         if hasattr(mod, "SPEC"):
             specs.append(mod.SPEC)
+        if hasattr(mod, "SPECS"):
+            specs.extend(mod.SPECS)
         if hasattr(mod, "SETUP"):
             specs.extend(mod.SETUP)
     groups = []
